@@ -50,6 +50,8 @@ TAG_TO_MATCH = {
     "hangup-blocked": "disconnect-while-blocked",
     "big-push": "wake-batch-overflow",
     "batch-before-hangup-noticed": "disconnect-in-flight",
+    "hangup-behind-bytes": "hangup-behind-unread-bytes",
+    "kill-blocked": "stale-head-leftover-wake",
 }
 FIVE = ("notify_per_element", "wake_at_push", "unregister_all", "refuse_in_tx", "dedup_keys")
 # which source switch closes which finding (None = no local repair proposed)
@@ -63,6 +65,8 @@ MATCH_TO_SWITCH = {
     "wake-batch-overflow": "drain_all",
     "exec-not-atomic": "exec_atomic",
     "hangup-during-stall": "wake_checks_client",
+    "hangup-behind-unread-bytes": "probe_reads_input",
+    "stale-head-leftover-wake": "serve_drains",
     "push-by-script": "serve_after_script",
     "rename-onto-waited-key": "serve_after_script",
 }
@@ -71,7 +75,8 @@ MARGIN_MS = 60      # a deadline counts as passed this long after it
 LATE_MS = 300       # a nil may be this late
 
 
-SWITCHES = ("notify_per_element", "wake_at_push", "unregister_all", "refuse_in_tx", "dedup_keys", "drain_all", "notice_blocked_hangup", "defer_batch", "exec_atomic", "wake_checks_client")
+SWITCHES = ("notify_per_element", "wake_at_push", "unregister_all", "refuse_in_tx", "dedup_keys", "drain_all", "notice_blocked_hangup", "defer_batch", "exec_atomic", "wake_checks_client",
+            "serve_drains", "probe_reads_input")
 
 
 def cfg_line(facts):
@@ -398,7 +403,7 @@ class HistoryRun:
             self.m = {"raw": "", "reg": {}, "deadlines": self.wait_deadlines(), "wq": [], "lists": {}, "lost": 0,
                       "stranded": [], "leftover": [], "unreg": [],
                       "conns": {cid: {"blocked": any(not w.deferred for w in self.waits[ci]), "closed": self.closed[ci], "gone": self.closed[ci],
-                                      "tx": self.in_multi[ci], "deferred": False, "state": "?"} for ci, cid in enumerate(self.ids)}}
+                                      "tx": self.in_multi[ci], "deferred": False, "unread": False, "state": "?"} for ci, cid in enumerate(self.ids)}}
             return self.m
         line = self.S.ask("dump %s %s" % ("|".join(str(i) for i in [0] + self.ids), "|".join(hx(k) for k in self.keys)))
         d = dict(p.split("=", 1) for p in line.split(" "))
@@ -420,10 +425,10 @@ class HistoryRun:
         for part in d["conns"].split(";"):
             c, st = part.split(":", 1)
             flags = ""
-            while st and st[-1] in "xgtd":
+            while st and st[-1] in "xgtdu":
                 flags = st[-1] + flags
                 st = st[:-1]
-            m["conns"][int(c)] = {"blocked": st != "-", "closed": "x" in flags, "gone": "g" in flags, "tx": "t" in flags, "deferred": "d" in flags, "state": st}
+            m["conns"][int(c)] = {"blocked": st != "-", "closed": "x" in flags, "gone": "g" in flags, "tx": "t" in flags, "deferred": "d" in flags, "unread": "u" in flags, "state": st}
         for f in ("stranded", "leftover", "unreg"):
             m[f] = [] if d[f] == "." else d[f].split(",")
         self.m = m
@@ -580,11 +585,12 @@ class HistoryRun:
         for c, st in self.refresh_model()["conns"].items():
             if st["closed"] and not st["gone"] and (not st["blocked"] or self.S.facts["notice_blocked_hangup"]):
                 self.model_event("reap %d" % c, step)
-        # frames kept behind a blocking pop are executed as soon as the client is unblocked (next iteration)
+        # frames kept behind a blocking pop are executed as soon as the client is unblocked (next iteration) — also for a
+        # client that closed behind bytes the server has not read: that read finds the bytes, not yet the end-of-file
         for _ in range(4):
             again = False
             for c, st in self.refresh_model()["conns"].items():
-                if st["deferred"] and not st["blocked"] and not st["closed"] and not st["gone"]:
+                if not st["blocked"] and not st["gone"] and ((st["deferred"] and not st["closed"]) or (st["closed"] and st["unread"])):
                     for c2, toks in self.model_event("conn %d %d" % (c, self.now()), step).items():
                         expect.setdefault(c2, []).extend(toks)
                     again = True
@@ -593,6 +599,9 @@ class HistoryRun:
             while self.refresh_model()["wq"]:
                 for c2, toks in self.model_event("wakeups", step).items():
                     expect.setdefault(c2, []).extend(toks)
+        for c, st in self.refresh_model()["conns"].items():
+            if st["closed"] and not st["gone"] and (not st["blocked"] or self.S.facts["notice_blocked_hangup"]):
+                self.model_event("reap %d" % c, step)         # … and the read (or, blocked again, the probe) after it finds the end-of-file
         m = self.refresh_model()
         got = {}
         for ci, f in enumerate(self.flat):
@@ -808,6 +817,72 @@ class HistoryRun:
                 expect.setdefault(c, []).extend(toks)
             self.rep.nontrivial(("hangup", st["blocked"]))
             return self.settle_and_compare(step, expect, t, bool(self.m["deadlines"]))
+        if kind == "dirty":
+            # the blocked client writes something (not read by the server: it is blocked) and closes: end-of-file behind unread bytes
+            if self.closed[ci] or not st["blocked"] or st["gone"]:
+                return None
+            self.steps.append(action)
+            t = self.now()
+            self.trace.append("%d ms: client %d (conn %d), blocked, writes PING and closes its socket" % (t, ci, cid))
+            try:
+                self.clients[ci].send_raw(Client.encode(["PING"]))
+            finally:
+                self.clients[ci].close()
+            self.closed[ci] = True
+            self.waits[ci] = []
+            self.rep.count("feature.bytes-then-close-while-blocked")
+            regs = [k for k, v in self.m["reg"].items() if v and v[0] == cid and len(v) > 1]
+            if regs:
+                self.rep.count("feature.bytes-then-close-while-blocked.head-of-multi-waiter-queue")
+            expect = self.model_event("dirty %d" % cid, step)
+            for c, toks in self.model_event("reap %d" % cid, step).items():
+                expect.setdefault(c, []).extend(toks)
+            self.rep.nontrivial(("dirty", bool(regs)))
+            return self.settle_and_compare(step, expect, t, bool(self.m["deadlines"]))
+        if kind == "killsend":
+            # ONE write of client ci: CLIENT KILL ID <target>, then a batch — the killed connection is Closing at once but stays in
+            # the table, and in the registries, until the end of the loop iteration that runs this batch
+            _, _, tj, cmds = action
+            if self.closed[ci] or st["blocked"] or st["gone"] or self.in_multi[ci] or tj == ci or tj >= len(self.clients) or self.closed[tj]:
+                return None
+            tid = self.ids[tj]
+            tst = self.m["conns"][tid]
+            if tst["gone"]:
+                return None
+            self.steps.append(action)
+            head_of = [k for k, v in self.m["reg"].items() if v and v[0] == tid and len(set(v)) > 1]
+            shape = "+".join(c_[0] for c_ in cmds) or "nothing"
+            self.rep.count("feature.client-kill.%s" % ("waiter.stale-head-of-multi-waiter-queue" if head_of else "waiter" if tst["blocked"] else "unblocked-client"))
+            if tst["blocked"]:
+                self.rep.count("feature.client-kill.waiter.then." + shape)
+            for f in features(("send", ci, cmds), self.m):
+                self.rep.count("feature." + f)
+            t = self.now()
+            self.enc_client = ci
+            self.push_fifo[ci].append([])            # the integer reply of CLIENT KILL acknowledges no push
+            wire, words = [Client.encode(["CLIENT", "KILL", "ID", str(tid)])], []
+            for cmd in cmds:
+                args, word = self.encode(cmd)
+                wire.append(Client.encode(args))
+                words.append(word)
+            self.enc_client = None
+            self.trace.append("%d ms: client %d (conn %d) sends CLIENT KILL ID %d (client %d%s) ; %s" % (
+                t, ci, cid, tid, tj, ", blocked" if tst["blocked"] else "", " ; ".join(" ".join(a.decode() if isinstance(a, bytes) else a for a in self.encode_peek(cmd)) for cmd in cmds)))
+            expect = self.model_event("kill %d" % tid, step)
+            for c, toks in self.model_event("conn %d %d %s" % (cid, t, " ".join(words)), step).items():
+                expect.setdefault(c, []).extend(toks)
+            expect[cid] = ["i1"] + expect.get(cid, [])
+            self.clients[ci].send_raw(b"".join(wire))
+            self.closed[tj] = True
+            self.waits[tj] = []
+            inm = False
+            for cmd in cmds:
+                inm = True if cmd[0] == "multi" else False if cmd[0] == "exec" else inm
+            self.in_multi[ci] = inm
+            ok = self.settle_and_compare(step, expect, t, bool(self.m["deadlines"]))
+            self.clients[tj].close()
+            self.rep.nontrivial(("killsend", tst["blocked"], bool(head_of), shape, tuple(sorted(set(t_ for s_, t_ in self.tags if s_ == step)))))
+            return ok
         if kind == "select":
             if self.closed[ci] or st["blocked"] or st["gone"] or action[2] >= len(self.dbs) or self.in_multi[ci]:
                 return None
@@ -915,6 +990,38 @@ def gen_action(r, h, mode, timed):
     keys_multi = lambda: r.choice([[0, 1], [1, 0], [0, 0], [0, 1, 0], [1, 1, 0], [0, 1, 1, 0], [1, 0, 1], [0, 1, 2], [2, 0, 2], [0, 1, 2, 0], [1, 2, 1, 0], [2, 1, 0, 1, 2]])
     allowed_only = mode == "allowed"
     x = r.below(100)
+    F = h.S.facts
+    blocked_live = [ci for ci in range(len(h.clients)) if not h.closed[ci] and m["conns"][h.ids[ci]]["blocked"]]
+    if not allowed_only and blocked_live:
+        z = r.below(100)
+        # bytes, then close, while blocked: inside AllowedFixed only once the probe reads the pending input
+        if z < 5 and (mode == "free" or (F["notice_blocked_hangup"] and F["wake_checks_client"] and F["probe_reads_input"])):
+            return ("dirty", r.choice(blocked_live))
+        # CLIENT KILL of a waiter and, in the same write, an element for its key by a way that goes through serve_key (EXEC) or
+        # through the push arm, with or without a pop / a second transaction behind it: `free` only (AllowedFixed excludes it)
+        if z < 13 and mode == "free" and free:
+            tj = r.choice(blocked_live)
+            heads = [c_ for c_ in blocked_live if any(v and v[0] == h.ids[c_] and len(set(v)) > 1 for v in m["reg"].values())]
+            if heads and r.chance(2, 3):
+                tj = r.choice(heads)
+            names = [h.name_of(k_) for k_ in (h.waits[tj][0].keys if h.waits[tj] else [])]
+            ks = [h.names.index(n_) for n_ in names if n_ in h.names] or [0]
+            k = r.choice(ks)
+            o = (k + 1) % 3
+            same_db = [c_ for c_ in free if h.cur_db[c_] == h.cur_db[tj]]
+            return ("killsend", r.choice(same_db or free), tj, r.choice([
+                [("multi",), ("push", op(), k, 1), ("exec",)],
+                [("multi",), ("push", op(), k, 1), ("exec",), ("pop", op(), k)],
+                [("multi",), ("push", op(), k, 2), ("exec",), ("multi",), ("push", op(), o, 1), ("pop", op(), k), ("exec",)],
+                [("multi",), ("push", op(), k, 1), ("exec",), ("push", op(), o, 1)],
+                [("push", op(), k, r.range(1, 2))],
+                [("push", op(), k, 1), ("pop", op(), k)],
+                [],
+            ]))
+    if not allowed_only and len(free) >= 2 and r.below(100) < 2:
+        a_, b_ = r.choice(free), r.choice(free)
+        if a_ != b_:
+            return ("killsend", a_, b_, r.choice([[], [("push", op(), key(), 1)]]))      # an unblocked client killed: inside AllowedFixed
     if not allowed_only and free:
         y = r.below(100)
         pending = sorted(set(m["deadlines"]))
@@ -1006,6 +1113,52 @@ def gen_convoy(r):
     acts.append(("send", p, [("push", r.choice("LR"), k, r.range(1, 2)), ("push", r.choice("LR"), other, 1)]))
     acts.append(("tick",))
     acts.append(("send", p, [("push", r.choice("LR"), k, 2)]))
+    return p + 1, acts
+
+
+def gen_stale_head(r):
+    """two or three waiters queued on ONE key (single- and multi-key calls, with and without timeout); the HEAD waiter is killed
+    (CLIENT KILL) in the same write that brings an element to the key through EXEC — or through the push arm — followed by a pop
+    or by a second transaction; then more pushes: (clients, actions)"""
+    k = r.below(3)
+    o = (k + 1 + r.below(2)) % 3
+    nw = r.range(2, 3)
+    acts = []
+    for ci in range(nw):
+        ks = r.choice([[k], [k], [k, o], [o, k]]) if ci else r.choice([[k], [k], [k, o]])
+        acts.append(("send", ci, [("bpop", r.choice("LR"), ks, r.choice([0, 0, 400]) if ci else 0)]))
+    p = nw
+    op = lambda: r.choice("LR")
+    acts.append(("killsend", p, 0, r.choice([
+        [("multi",), ("push", op(), k, 1), ("exec",)],
+        [("multi",), ("push", op(), k, 1), ("exec",), ("pop", op(), k)],
+        [("multi",), ("push", op(), k, 1), ("exec",), ("multi",), ("push", op(), o, 1), ("pop", op(), k), ("exec",)],
+        [("multi",), ("push", op(), k, 2), ("pop", op(), k), ("exec",), ("pop", op(), k)],
+        [("multi",), ("push", op(), k, 1), ("exec",), ("push", op(), o, 1)],
+        [("push", op(), k, 1), ("pop", op(), k)],
+    ])))
+    acts.append(("send", p, [("push", op(), k, 1)]))
+    acts.append(("tick",))
+    acts.append(("send", p, [("push", op(), k, 2), ("push", op(), o, 1)]))
+    return p + 1, acts
+
+
+def gen_dirty_close(r):
+    """waiters on one key; the head one writes bytes while blocked and closes (end-of-file behind unread input); pushes by the
+    push arm and by EXEC: (clients, actions)"""
+    k = r.below(3)
+    o = (k + 1) % 3
+    nw = r.range(1, 3)
+    acts = []
+    for ci in range(nw):
+        acts.append(("send", ci, [("bpop", r.choice("LR"), r.choice([[k], [k], [k, o], [o, k]]), r.choice([0, 0, 400]))]))
+    p = nw
+    op = lambda: r.choice("LR")
+    acts.append(("dirty", r.below(nw) if r.chance(1, 3) else 0))
+    acts.append(("send", p, r.choice([[("push", op(), k, 1)], [("push", op(), k, 2)], [("multi",), ("push", op(), k, 2), ("exec",)],
+                                      [("push", op(), k, 1), ("pop", op(), k)]])))
+    acts.append(("tick",))
+    acts.append(("send", p, [("push", op(), k, 1), ("push", op(), o, 1)]))
     return p + 1, acts
 
 
@@ -1110,6 +1263,18 @@ WITNESSES = [
     # the leftover registration of a multi-key call keeps its deadline and cuts a later wait-for-ever short
     ("multi-key-leftover", 2, [("send", 0, [("bpop", "L", [0, 1], 400)]), ("send", 1, [("push", "R", 0, 1)]), ("send", 0, [("bpop", "L", [0], 0)]), ("tick",)],
      {"early-nil", "leftover-registration"}),
+    # end-of-file behind unread bytes: the probe's peek does not see it
+    ("hangup-behind-unread-bytes", 2, [("send", 0, [("bpop", "L", [0], 0)]), ("dirty", 0), ("send", 1, [("push", "R", 0, 1)])],
+     {"lost"}),
+    ("hangup-behind-unread-bytes", 3, [("send", 0, [("bpop", "R", [0], 0)]), ("send", 1, [("bpop", "L", [0], 0)]), ("dirty", 0),
+                                       ("send", 2, [("multi",), ("push", "R", 0, 2), ("exec",)])],
+     {"lost"}),
+    # a stale head waiter (killed in the same write): serve_key leaves the wake-up request of the next waiter queued; the LPOP
+    # behind the EXEC takes the element, the request is carried out on the empty list and dropped with the waiter
+    ("stale-head-leftover-wake", 3, [("send", 0, [("bpop", "L", [0], 0)]), ("send", 1, [("bpop", "L", [0], 0)]),
+                                     ("killsend", 2, 0, [("multi",), ("push", "R", 0, 1), ("exec",), ("pop", "L", 0)]),
+                                     ("send", 2, [("push", "R", 0, 1)])],
+     {"stranded", "blocked-unregistered"}),
 ]
 
 # exhaustive small scope (thorough): all histories of <= 5 actions over this alphabet; clients 0,1 wait, client 2 pushes
@@ -1333,7 +1498,135 @@ def probes(sess):
     out["wake-batch-overflow"] = probe_batch_overflow(sess)
     out["exec-not-atomic"] = probe_exec_atomic(sess)
     out["hangup-during-stall"] = probe_hangup_during_stall(sess)
+    out["hangup-behind-unread-bytes"] = probe_hangup_behind_bytes(sess)
+    out["stale-head-leftover-wake"] = probe_stale_head(sess, sha)
     return out
+
+
+def probe_hangup_behind_bytes(sess):
+    """A blocked on k (alone, or with B queued behind it) writes something while blocked — a PING, half a frame, a second
+    blocking pop — and closes: the end-of-file sits behind unread bytes.  An element then reaches k (RPUSH; MULTI RPUSH x y EXEC):
+    it must be conserved — left in the list, or handed to B — never popped for A."""
+    first = None
+    junk = {"PING": Client.encode(["PING"]), "half-frame": b"*2\r\n$3\r\nGET\r\n", "inline": b"PING\r\n", "second-BLPOP": Client.encode(["BLPOP", "zz", "0"])}
+    for bop in ("BLPOP", "BRPOP"):
+        for what, raw in junk.items():
+            for with_next in (False, True):
+                for way in ("RPUSH", "EXEC[RPUSH x y]"):
+                    if what != "PING" and (with_next or way != "RPUSH") and bop == "BRPOP":
+                        continue
+                    sess.hist_no += 1
+                    k = b"p%d:hb" % sess.hist_no
+                    a, b, p = sess.srv.client(), sess.srv.client(), sess.srv.client()
+                    try:
+                        a.send(bop, k, "0")
+                        sess.wait_loops(3)
+                        if with_next:
+                            b.send(bop, k, "0")
+                            sess.wait_loops(3)
+                        a.send_raw(raw)
+                        sess.wait_loops(2)
+                        a.close()
+                        sess.wait_loops(4)
+                        if way == "RPUSH":
+                            pr = [p.cmd("RPUSH", k, "x", timeout=5)]
+                            vals = [b"x"]
+                        else:
+                            p.send_raw(Client.encode(["MULTI"]) + Client.encode(["RPUSH", k, "x", "y"]) + Client.encode(["EXEC"]))
+                            pr = [p.read_reply(5) for _ in range(3)]
+                            vals = [b"x", b"y"]
+                        sess.wait_loops(5)
+                        got_b = Flat(b).read(0.2) if with_next else None
+                        lst = sess.impl_list(k)
+                        reg, wq = sess.impl_blocked([k])
+                        sess.rep.count("probe.bytes-then-close-while-blocked.%s.%s.%s.%s" % (bop, what, "with-next-waiter" if with_next else "alone", way))
+                        if with_next:
+                            served = vals[0] if bop == "BLPOP" else vals[-1]
+                            rest = [v for v in vals if v != served]
+                            conserved = got_b == "p=%s=%s" % (hx(k), hx(served)) and lst == rest
+                        else:
+                            conserved = lst == vals
+                        if not conserved and first is None:
+                            first = {"why": "A blocked in %s %r 0%s writes %s and closes; then %s (%s): the list holds %r, %s, registry %s — an element was popped for the "
+                                            "client that had gone (its end-of-file sits behind unread bytes)" % (
+                                                bop, k, ", B behind it" if with_next else "", what, way, [show_plain(x) for x in pr], lst,
+                                                "B got %s" % got_b if with_next else "nobody else waits", show_reg(reg)),
+                                     "commands": ["A: %s k 0" % bop] + (["B: %s k 0" % bop] if with_next else []) + ["A: raw %r, then close" % raw, "P: %s" % way]}
+                    finally:
+                        for c_ in (a, b, p):
+                            c_.close()
+    return first
+
+
+def probe_stale_head(sess, sha):
+    """A1, A2 blocked on k.  B, ONE write: CLIENT KILL ID A1; an element reaches k (every way that goes through serve_key, and the
+    push arm); then either a transaction of three reads of k — which must agree with each other — or an LPOP.  Afterwards A2 must
+    have been served, or still be served by the next push: no wake-up request may be left behind by the stale head waiter."""
+    first = None
+    for how in ("killed", "vanished-during-stall"):
+      for way in ("EXEC[RPUSH]", "EVAL", "EVALSHA", "EXEC[EVAL]", "RENAME", "RENAMENX", "EXEC[RENAME]", "EVAL[RENAME]", "RPUSH"):
+        for bop in ("BLPOP", "BRPOP"):
+            for tail in ("exec-reads", "lpop"):
+                if bop == "BRPOP" and way not in ("EXEC[RPUSH]", "EVAL", "RENAME"):
+                    continue
+                if how != "killed" and (way not in ("EXEC[RPUSH]", "EVAL", "RENAME") or bop != "BLPOP"):
+                    continue
+                sess.hist_no += 1
+                k = b"p%d:sh" % sess.hist_no
+                src = b"p%d:shsrc" % sess.hist_no
+                a1, a2, z = sess.srv.client(), sess.srv.client(), sess.srv.client()
+                b = sess.srv.client()           # connected last: handled after `z` in the iteration that ends the stall
+                try:
+                    id1 = a1.cmd("CLIENT", "ID", timeout=5)[1]
+                    a1.send(bop, k, "0")
+                    sess.wait_loops(3)
+                    a2.send(bop, k, "0")
+                    sess.wait_loops(3)
+                    cmds = ([["CLIENT", "KILL", "ID", str(id1)]] if how == "killed" else []) + ARRIVALS[way](k, src, sha)
+                    cmds += [["MULTI"], ["LLEN", k], ["LLEN", k], ["LRANGE", k, "0", "-1"], ["EXEC"]] if tail == "exec-reads" else [["LPOP", k]]
+                    if how != "killed":
+                        # A1 goes away AFTER this iteration's hang-up probe: the loop is stalled, A1 closes, B writes during the stall
+                        z.send("SLEEP", "250")
+                        time.sleep(0.05)
+                        a1.close()
+                        time.sleep(0.02)
+                    b.send_raw(b"".join(Client.encode(c) for c in cmds))
+                    if how != "killed":
+                        z.read_reply(5)
+                    replies = [b.read_reply(5) for _ in cmds]
+                    sess.wait_loops(5)
+                    got2 = Flat(a2).read(0.2)
+                    sess.rep.count("probe.stale-head-waiter.%s.%s.%s.%s" % (how, way, bop, tail))
+                    bad = None
+                    if how == "killed" and replies[0] != ("i", 1):
+                        raise InternalError("probe: CLIENT KILL ID answered %r" % (replies[0],))
+                    if tail == "exec-reads":
+                        ex = replies[-1]
+                        if ex[0] != "a" or len(ex[1]) != 3:
+                            raise InternalError("probe: EXEC of three reads answered %r" % (ex,))
+                        l1, l2, lr = ex[1][0][1], ex[1][1][1], len(ex[1][2][1])
+                        if not (l1 == l2 == lr):
+                            bad = "the three queued reads of ONE transaction saw different states of %r: LLEN %r, LLEN %r, LRANGE of %d element(s) — the waiter behind the killed head was served (%s) between them" % (k, l1, l2, lr, got2)
+                        elif got2 is None:
+                            bad = "the waiter behind the killed head waiter was not served by %s (reads inside the next transaction: %r)" % (way, [l1, l2, lr])
+                    else:
+                        if got2 is None:
+                            # the LPOP may legitimately have taken the element only if A2 is still properly queued: the next push must reach it
+                            sess.ctl.cmd("RPUSH", k, "late", timeout=5)
+                            sess.wait_loops(5)
+                            got_late = Flat(a2).read(0.2)
+                            lst = sess.impl_list(k)
+                            reg, wq = sess.impl_blocked([k])
+                            if got_late is None:
+                                bad = "after %s ; LPOP (%s) the waiter behind the killed head waiter is blocked but in no queue: RPUSH %r late left %r in the list, registry %s, wake queue %d" % (
+                                    way, show_plain(replies[-1]), k, lst, show_reg(reg), wq)
+                    if bad and first is None:
+                        first = {"why": "A1, A2 in %s %r 0; %sone write: %s -> %s" % (bop, k, "" if how == "killed" else "loop stalled (SLEEP 250), A1 closes, during the stall ", " ; ".join(" ".join(x.decode() if isinstance(x, bytes) else x for x in c)[:60] for c in cmds), bad),
+                                 "way": way, "commands": [[x.decode() if isinstance(x, bytes) else x for x in c] for c in cmds], "replies": [show_plain(x) for x in replies]}
+                finally:
+                    for c_ in (a1, a2, b, z):
+                        c_.close()
+    return first
 
 
 def probe_hangup_during_stall(sess):
@@ -1540,8 +1833,10 @@ def main(tier, seed):
     rep.rule = ("histories of 3-8 actions (a batch written in one send: BLPOP/BRPOP on 1-5 key arguments over 3 key names — distinct, adjacent and NON-adjacent repeats — with "
                 "timeout 0/200/300/400 ms, LPUSH/RPUSH of 1-5 elements (half of them aimed at a key with waiters), LPOP/RPOP, pipelined push+pop, MULTI..EXEC; a wait for the next "
                 "deadline; a stall of the event loop (the server's SLEEP test command from the control connection) while two or more deadlines pass, so that ONE deadline scan finds "
-                "several waiters expired; a hang-up; SELECT between calls) of 2-4 clients, in database 0/1/7/14/15 or in two databases at once (same key names in both); every tenth "
-                "history is a convoy: 3-4 waiters queued on one key with staggered finite timeouts and one for-ever waiter, a stall, pushes. Against the real server over TCP, sequenced by "
+                "several waiters expired; a hang-up; bytes written while blocked, then a hang-up (end-of-file behind unread input); CLIENT KILL of a waiter or of an idle client in the same write as a batch "
+                "(EXEC that pushes / push / push+pop / second transaction); SELECT between calls) of 2-4 clients, in database 0/1/7/14/15 or in two databases at once (same key names in both); every tenth "
+                "history is a convoy: 3-4 waiters queued on one key with staggered finite timeouts and one for-ever waiter, a stall, pushes; every twentieth a stale head (2-3 waiters on one "
+                "key, the head one killed in the write that brings an element through EXEC, then a pop or a second transaction), every twentieth a bytes-then-close of a waiter. Against the real server over TCP, sequenced by "
                 ">= 3 event-loop iterations (VERIF LOOP); after every action: reply streams, VERIF BLOCKED registry dump, wake-queue length and LRANGE of both keys "
                 "compared with the Lean event machine (code variant), and the full statements (multiset equation, stranded, registry = waiting set, FIFO, nil not "
                 "before the timeout and at most 300 ms late) evaluated on the implementation's observables alone. Half of the random histories are drawn from the "
@@ -1629,6 +1924,12 @@ def main(tier, seed):
             if i % 10 == 9 and mode != "allowed":
                 ncl, acts = gen_convoy(hr)
                 h = run_fixed(sess, acts, ncl, "convoy#%d" % i, lenient=True, dbs=dbs)
+            elif i % 20 == 5 and mode != "allowed":
+                ncl, acts = gen_stale_head(hr)           # leaves AllowedFixed (a waiter is killed): explained only by an open finding
+                h = run_fixed(sess, acts, ncl, "stale-head#%d" % i, lenient=True, dbs=dbs)
+            elif i % 20 == 15 and mode != "allowed":
+                ncl, acts = gen_dirty_close(hr)
+                h = run_fixed(sess, acts, ncl, "bytes-then-close#%d" % i, lenient=True, dbs=dbs)
             else:
                 h = run_random(sess, hr, hr.range(3, 8), hr.range(2, 4), mode, timed, mode + "#%d" % i, dbs=dbs)
             if h.overrun and (h.oracle or h.disagree):
@@ -1746,12 +2047,12 @@ def replay(path):
 
 def tuplify(a):
     """JSON lists back to the action tuples"""
-    if a[0] == "send":
+    if a[0] in ("send", "killsend"):
         cmds = []
-        for c in a[2]:
+        for c in a[-1]:
             c = list(c)
             if c[0] == "bpop":
                 c[2] = list(c[2])
             cmds.append(tuple(c))
-        return ("send", a[1], cmds)
+        return tuple(a[:-1]) + (cmds,)
     return tuple(a)
